@@ -11,6 +11,7 @@ import OutlineModel.Gen.Ciphers
    cfg bound                                                             -> sorted, comma-separated bound listener keys (hex) | -
    cfg hammer                                                            -> refused=0 unauth=0 lost=0 dup=0
    cfg relays                                                            -> broken=0
+   cfg replay                                                            -> refused   (a served handshake presented again elsewhere / after a reload)
    cfg stop                                                              -> ok
 -/
 namespace OutlineModel.Drive.Config
@@ -92,6 +93,7 @@ def step (d : St) (args : List String) : St × String :=
     (d, if ks.isEmpty then "-" else ",".intercalate ks)
   | ["hammer"] => (d, "refused=0 unauth=0 lost=0 dup=0")
   | ["relays"] => (d, "broken=0")
+  | ["replay"] => (d, "refused")     -- C07: one history for the whole process, across listeners, services and reloads
   | ["stop"] =>
     let (m, _) := releaseAll d.srv.mgr (d.srv.cur.map (·.1))
     ({ d with srv := { mgr := m, cur := [] } }, "ok")
